@@ -211,6 +211,11 @@ def instances_for(name, schema, rng, tier, combos=2):
         if m is not None:
             out.append(("viol:" + kw.split(":")[0], m, [("/".join(map(str, path)), kw)]))
             muts.append((path, kw, node))
+        if kw == "type" and node.get("type") == "integer":
+            # draft 4: an integral float is not an integer (later drafts accept it)
+            cur = _get(full, path)
+            if isinstance(cur, int) and not isinstance(cur, bool):
+                out.append(("viol:type-intfloat", _set(copy.deepcopy(full), path, float(cur)), [("/".join(map(str, path)), kw)]))
         if kw == "type" and path and rng.random() < 0.35:
             # JSON null in place of a value is a type violation too (and is what remove_nones would hide)
             out.append(("viol:null", _set(copy.deepcopy(full), path, None), [("/".join(map(str, path)), kw)]))
